@@ -28,10 +28,10 @@ pub struct Tracking;
 
 fn record(alloc: bool, addr: usize, size: usize, align: usize) {
     if ON.load(Ordering::Relaxed) {
+        // a ring: when more than CAP events occur, the most recent ones are kept (the object a constructor
+        // returns is allocated last, after the harness has parsed its arguments)
         let i = N.fetch_add(1, Ordering::Relaxed);
-        if i < CAP {
-            unsafe { EVENTS[i] = Event { alloc, addr, size, align } };
-        }
+        unsafe { EVENTS[i % CAP] = Event { alloc, addr, size, align } };
     }
 }
 
@@ -66,6 +66,6 @@ pub fn mark() {
 
 pub fn unmark() -> Vec<Event> {
     ON.store(false, Ordering::Relaxed);
-    let n = N.load(Ordering::Relaxed).min(CAP);
-    (0..n).map(|i| unsafe { EVENTS[i] }).collect()
+    let n = N.load(Ordering::Relaxed);
+    (n.saturating_sub(CAP)..n).map(|i| unsafe { EVENTS[i % CAP] }).collect()
 }
